@@ -454,6 +454,11 @@ class ScriptBackend(TrialBackend):
     def _value(self, tid, r, k):
         rr = random.Random(self.p.get("vseed", 0) * 7919 + tid * 104729 + r * 31 + k)
         lat = random.Random(self.p.get("vseed", 0) * 31 + tid).randrange(0, 64)
+        vs = self.p.get("vstyle")
+        if vs == "zero-min":      # running minimum is exactly 0 (threshold tests at the value 0)
+            return float(rr.choice([0, 0, 1, 2, 3]))
+        if vs == "zero-max":      # running maximum is exactly 0
+            return float(rr.choice([0, 0, -1, -2, -3]))
         return (lat * 4 + rr.randrange(-32, 33)) / 64.0
 
     def _emit(self, tid, t):
@@ -1281,7 +1286,7 @@ def gen_scheduler(rng, sim):
         sp["max_resource_attr"] = rng.random() < 0.4
     elif k == "pbt":
         sp["population_size"] = rng.choice([2, 3, 4])
-        sp["perturbation_interval"] = rng.choice([1, 2])
+        sp["perturbation_interval"] = rng.choice([1, 2, 2, 3])
         sp["quantile_fraction"] = rng.choice([0.25, 0.34, 0.5])
     elif k == "moasha":
         sp["modes"] = rng.choice([["min", "max"], ["min", "min"], ["max", "max"]])
@@ -1357,6 +1362,14 @@ def gen_spec(rng, tier):
             "nan_metric": (not real or sp["kind"] == "fifo" and sp.get("searcher") == "random") and style == "rich" and rng.random() < 0.5,
             "short_runs": None if real else rng.choice([None, 1, 2]),
         }
+        # metric thresholds crossed exactly at the value 0
+        if rng.random() < 0.12:
+            if rng.random() < 0.5:
+                spec["backend_params"]["vstyle"] = "zero-min"
+                spec["criterion"] = {"min_metric_value": {METRIC: frac_str(0.5)}, "max_num_evaluations": rng.randint(25, 40)}
+            else:
+                spec["backend_params"]["vstyle"] = "zero-max"
+                spec["criterion"] = {"max_metric_value": {METRIC: frac_str(-0.5)}, "max_num_evaluations": rng.randint(25, 40)}
     return spec
 
 
@@ -1659,7 +1672,21 @@ def monitor_c20_loop(t):
     removable = set()
     in_final = False
     prev = None
+    deleted_at = {}
+    # PBT: when was the source of a warm start picked? The scheduler pushes (source, config) on a LIFO stack while it
+    # answers STOP below max_t, and pops it in the next suggest with a checkpoint
+    pbt_stack, picked_at = [], {}
+    max_t = getattr(t["scheduler"], "max_t", None) if is_pbt(t) else None
     for i, c, a in calls:
+        if max_t is not None and isinstance(a, dict):
+            if c[:2] == ["sched", "result"] and a.get("d") == "STOP":
+                try:
+                    if t["dlg"].results[c[3]][1][RES] < max_t:
+                        pbt_stack.append(i)
+                except Exception:
+                    pass
+            if c[:2] == ["sched", "suggest"] and a.get("ckpt") is not None and pbt_stack:
+                picked_at[c[2]] = pbt_stack.pop()
         if c == ["be", "all_results"]:
             in_final = True
         if c[:2] == ["sched", "removable"] and isinstance(a, dict) and "ids" in a:
@@ -1671,12 +1698,21 @@ def monitor_c20_loop(t):
                 out.append(F("c20:unexpected-delete", f"checkpoint of trial {tid} deleted without STOP / removable / end of tuning", {"call": i}))
             if a == {"ret": True}:
                 deleted.add(tid)
+                deleted_at[tid] = i
         if c[:2] in (["be", "start"], ["be", "resume"]) and a == {"ret": True}:
             if c[:2] == ["be", "resume"] and c[2] in deleted:
                 out.append(F("c20:resume-without-checkpoint", f"trial {c[2]} resumed after its checkpoint was deleted", {"call": i}))
             deleted.discard(c[2])  # a running trial writes a checkpoint again
         if c[:2] == ["be", "copy"] and c[2] in deleted:
-            sig = "c20:pbt-source-checkpoint-deleted" if is_pbt(t) else "c20:copy-from-deleted-checkpoint"
+            # PBT picks the source while it handles the result of the trial to be replaced; a source stopped by a later
+            # result of the same poll is one history (F5), a source whose checkpoint was deleted in an earlier poll
+            # (picked although it had been stopped already) is another one
+            if not is_pbt(t):
+                sig = "c20:copy-from-deleted-checkpoint"
+            elif picked_at.get(c[3], -1) < deleted_at.get(c[2], -1):
+                sig = "c20:pbt-source-checkpoint-deleted"
+            else:
+                sig = "c20:pbt-source-stopped-before-picked"
             out.append(F(sig, f"new trial {c[3]} is warm-started from trial {c[2]} whose checkpoint was deleted before (copy_checkpoint "
                               f"answered {a})", {"call": i}))
         prev = c
